@@ -348,3 +348,40 @@ func lastDot(s string) int {
 	}
 	return -1
 }
+
+// OnlyCalledFrom reports whether every call or reference site of the (unexported) function lies in one of
+// the allowed functions or in an unexported helper of which the same holds: a helper shared by the
+// functions a table allows is covered by that table.
+func (g *CallGraph) OnlyCalledFrom(key string, allowed func(string) bool) bool {
+	return g.onlyCalledFrom(key, allowed, map[string]bool{})
+}
+
+func (g *CallGraph) onlyCalledFrom(key string, allowed func(string) bool, busy map[string]bool) bool {
+	if allowed(key) {
+		return true
+	}
+	if busy[key] {
+		return true
+	}
+	busy[key] = true
+	name := key
+	if i := lastDot(key); i >= 0 {
+		name = key[i+1:]
+	}
+	if name == "" || (name[0] >= 'A' && name[0] <= 'Z') {
+		return false
+	}
+	callers := g.Callers(key)
+	if len(callers) == 0 {
+		return false
+	}
+	for _, e := range callers {
+		if e.Caller == key {
+			continue
+		}
+		if !g.onlyCalledFrom(e.Caller, allowed, busy) {
+			return false
+		}
+	}
+	return true
+}
